@@ -63,3 +63,28 @@ pub use message::Message;
 
 #[cfg(all(feature = "std", feature = "random"))]
 pub use mnemonic::generate_mnemonic_phrase;
+
+/// Verification hook: exposes both secp256k1 backends side by side so that one
+/// binary can compare them. Compiled only with `--cfg fuellabs_fuel_vm_verif`.
+#[cfg(all(fuellabs_fuel_vm_verif, feature = "std"))]
+#[doc(hidden)]
+pub mod verif_backends {
+    /// The `k256` (no-std) backend.
+    pub mod k256 {
+        pub use crate::secp256::backend::k1::k256::{
+            public_key,
+            recover,
+            sign,
+            verify,
+        };
+    }
+    /// The `secp256k1` (std) backend.
+    pub mod secp256k1 {
+        pub use crate::secp256::backend::k1::secp256k1::{
+            public_key,
+            recover,
+            sign,
+            verify,
+        };
+    }
+}
